@@ -635,9 +635,11 @@ pub fn gen_problem(rng: &mut Rng, cfg: &GenCfg) -> SProblem {
             let end = if cfg.open_shifts && rng.chance(1, 3) {
                 None
             } else {
+                let latest = base + rng.range(horizon / 2, horizon + 400);
                 Some(SShiftEnd {
-                    earliest: None,
-                    latest: base + rng.range(horizon / 2, horizon + 400),
+                    // one closed shift in five may not end before a given time (the vehicle waits at its end location)
+                    earliest: rng.chance(1, 5).then(|| rng.range(start_earliest, latest)),
+                    latest,
                     loc: if rng.chance(3, 4) { depot } else { rng.usize(0, n_depots - 1) },
                 })
             };
